@@ -347,8 +347,15 @@ class Check:
         return r["ok"]
 
     # -- correspondence side ------------------------------------------------
-    def add_suite(self, res, signature_fn, known_class_fn=None):
-        """fold one suite result into coverage; turn mismatches into violations / known findings"""
+    def add_suite(self, res, signature_fn, known_class_fn=None, only=None):
+        """fold one suite result into coverage; turn mismatches into violations / known findings.
+           only: predicate selecting the disagreements that concern this property (the others belong to a
+           sibling property checked from the same transcript)"""
+        if only is not None and not res.get("error"):
+            other = [mm for mm in res["mismatches"] if not only(mm)]
+            res = dict(res, mismatches=[mm for mm in res["mismatches"] if only(mm)])
+            self.coverage.setdefault("disagreements_of_sibling_properties", 0)
+            self.coverage["disagreements_of_sibling_properties"] += len(other)
         cov = self.coverage
         name = res["suite"] + (":" + res.get("tag", "") if res.get("tag") else "")
         cov["suites"][name] = {
